@@ -2874,6 +2874,23 @@ impl SctpInner {
         };
 
         if let Some(dc) = dc {
+            // User data on a channel we opened in-band whose DCEP ACK has not been
+            // processed yet (the peer's application may queue data before its stack
+            // queues the ACK): any message on the stream confirms the channel
+            // (RFC 8832 §6), so announce Open before delivering it.
+            if dc
+                .state
+                .compare_exchange(
+                    DataChannelState::Connecting as usize,
+                    DataChannelState::Open as usize,
+                    Ordering::SeqCst,
+                    Ordering::SeqCst,
+                )
+                .is_ok()
+            {
+                dc.send_event(DataChannelEvent::Open);
+            }
+
             let b_bit = (flags & 0x02) != 0;
             let e_bit = (flags & 0x01) != 0;
             let unordered = (flags & 0x04) != 0;
